@@ -172,6 +172,20 @@ func c18normSub(pc *PolyCtx, p Poly, subst map[string]Poly, depth int) Poly {
 	return out
 }
 
+// c18isSizeMask: q is a single `x & (SIZE-1)` value.
+func c18isSizeMask(pc *PolyCtx, q Poly) bool {
+	syms := q.Symbols()
+	if len(q) != 1 || len(syms) != 1 || !strings.HasPrefix(syms[0], "&(") {
+		return false
+	}
+	args := pc.opArgs[syms[0]]
+	if len(args) != 2 {
+		return false
+	}
+	m := c18Size.Sub(polyConst(1))
+	return c18norm(pc, args[1]).Equal(m) || c18norm(pc, args[0]).Equal(m)
+}
+
 func c18quo(a, b Poly) Poly {
 	return polySym(strings.ReplaceAll("quo("+a.String()+","+b.String()+")", "*", "·"))
 }
@@ -599,6 +613,8 @@ func (c *c18ctx) moving(fn *ssa.Function, g *GuardCtx, st *ssa.Store, consumer b
 			return 0
 		}(); sh != 0 {
 			r.Bad("C18.R3", fname+": "+what+" starts at pointer % size", p.InstrPos(pc1.s), fmt.Sprintf("the first piece starts at (pointer %+d) %% size: every transfer is shifted by %d byte(s) against the position the pointer stands for", sh, sh))
+		} else if c18isSizeMask(pc, pc1.lo) {
+			r.Bad("C18.R3", fname+": "+what+" starts at pointer % size", p.InstrPos(pc1.s), "the offset into the data region is taken with a bit mask (x & (size-1)) instead of x % size: the two agree only when the size is a power of two, and the size is whatever the creator of the buffer chose; for any other size the pieces are read from / written to the wrong places")
 		} else if d, isC := pc1.lo.Sub(expLo).IsConst(); isC {
 			r.Bad("C18.R3", fname+": "+what+" starts at pointer % size", p.InstrPos(pc1.s), fmt.Sprintf("the first piece starts %d byte(s) away from pointer %% size: every transfer is shifted, bytes are skipped or repeated", d))
 		} else {
@@ -1206,6 +1222,22 @@ func (c *c18ctx) discard(fn *ssa.Function, g *GuardCtx, st *ssa.Store, name stri
 				if matched {
 					break
 				}
+				// the write pointer itself on a way where its remainder was not looked at
+				testedRem, strideIsOne := false, false
+				for _, ct := range c18edgeConds(a.phi, a.idx) {
+					if bo, isB := ct.If.Cond.(*ssa.BinOp); isB {
+						if c18norm(pc, pc.Of(bo.X)).Equal(c18rem(W, s)) || c18norm(pc, pc.Of(bo.Y)).Equal(c18rem(W, s)) {
+							testedRem = true
+						}
+						if k, isC := constInt(bo.Y); isC && k == 1 && c18norm(pc, pc.Of(bo.X)).Equal(s) {
+							strideIsOne = true
+						}
+					}
+				}
+				if !testedRem && !strideIsOne {
+					r.Bad("C18.R7", key, p.InstrPos(st), "on one way the write pointer itself becomes the new read position without its remainder modulo the stride having been tested: when the writer is part-way through a unit the reader is left off the stride boundary, and every later chunked read straddles two units")
+					return
+				}
 			}
 			if d, isC := v.Sub(target).IsConst(); isC && d != 0 {
 				r.Bad("C18.R7", key, p.InstrPos(st), fmt.Sprintf("the stored position is %d byte(s) off stride*(w/stride): the reader resumes in the middle of a unit", d))
@@ -1514,7 +1546,7 @@ func (c *c18ctx) ruleR8() {
 				return
 			}
 			switch callee.Name() {
-			case "ReadMultipleOf", "DiscardStride", "DiscardAll":
+			case "ReadMultipleOf", "DiscardStride", "DiscardAll", "Read", "ReadAll", "ReadMinimum":
 			default:
 				return
 			}
@@ -1548,7 +1580,7 @@ func (c *c18ctx) ruleR8() {
 		unit := ""
 		unitOK := true
 		for _, u := range byOwner[o] {
-			if u.name != "ReadMultipleOf" {
+			if u.name != "ReadMultipleOf" && u.name != "DiscardStride" {
 				continue
 			}
 			k := fieldKey(u.arg)
@@ -1560,9 +1592,16 @@ func (c *c18ctx) ruleR8() {
 		if unit == "" && unitOK {
 			continue // this holder does not read in chunks
 		}
-		n := 0
+		n, nr := 0, 0
 		for _, u := range byOwner[o] {
 			if u.name == "ReadMultipleOf" {
+				continue
+			}
+			if u.name == "Read" || u.name == "ReadAll" || u.name == "ReadMinimum" {
+				nr++
+				if unitOK {
+					r.Bad("C18.R8", fmt.Sprintf("%s: read #%d takes whole units", o, nr), p.InstrPos(u.in), "this holder keeps its read position on a boundary of "+unit+" (it discards to that stride / reads in chunks of it) but this call takes whatever is readable ("+u.name+"): a unit the producer has written only in part is consumed and dropped, and the read position is left inside a unit")
+				}
 				continue
 			}
 			n++
